@@ -172,9 +172,12 @@ class PythonExpressionMapper(_PowerPrintingMixin, StringifyMapper):
         self._numpy = numpy
 
     def map_constant(self, expr, *args):
-        if isinstance(expr, (float, np.number)):
+        if isinstance(expr, (float, complex, np.number)):
             if np.isinf(expr) or np.isnan(expr):
-                return "float('" + repr(expr) + "')"
+                if np.iscomplexobj(expr):
+                    return "complex('" + repr(complex(expr)) + "')"
+                # repr() of a numpy scalar is not what float() reads.
+                return "float('" + repr(float(expr)) + "')"
         if isinstance(expr, np.generic):
             expr = expr.item()
 
